@@ -19,9 +19,9 @@ first=$(echo "$out" | grep -m1 '^VIOLATION' | sed 's/.*replay=//')
 case_id=""; obs=""
 if [ -n "$first" ] && [ -f "$first/case.json" ]; then case_id=$(python3 -c "import json;d=json.load(open('$first/case.json'));print(d['case'])"); obs=$(python3 -c "import json;d=json.load(open('$first/case.json'));print(d['observation'][:300])"); fi
 summary=$(echo "$out" | grep -m1 "^$P $TIER:" )
-python3 - "$OUTF" "$P" "$TIER" "$code" "$nviol" "$case_id" "$obs" "$summary" "$((end-start))" "$(git -C /repo rev-parse --short HEAD)" <<'PY'
+python3 - "$OUTF" "$P" "$TIER" "$code" "$nviol" "$case_id" "$obs" "$summary" "$((end-start))" "$(git -C /repo rev-parse --short HEAD)" "${VERIF_FILTER:-}" <<'PY'
 import json,sys
-out,p,tier,code,nviol,case,obs,summary,secs,head=sys.argv[1:11]
+out,p,tier,code,nviol,case,obs,summary,secs,head,flt=sys.argv[1:12]
 import os
 hist=[]
 if os.path.exists(out):
@@ -30,7 +30,8 @@ if os.path.exists(out):
     except Exception: pass
 vh=os.popen("git -C /verif rev-parse --short HEAD").read().strip()
 json.dump({"history":hist,"verif_head":vh,"check":p,"tier":tier,"exit_code":int(code),"violation_lines":int(nviol),"detected":int(code)==1 and int(nviol)>0,
-           "first_violation_case":case,"first_violation_observation":obs,"check_summary":summary,"wall_s":int(secs),"repo_head":head},open(out,"w"),indent=1)
+           "first_violation_case":case,"first_violation_observation":obs,"check_summary":summary,"wall_s":int(secs),"repo_head":head,
+           **({"case_filter":flt,"note":"run narrowed with VERIF_FILTER to the families named (the full quick tier contains them)"} if flt else {})},open(out,"w"),indent=1)
 PY
 git -C /repo worktree remove --force "$WT"
 echo "$(basename $S): exit=$code violations=$nviol ${case_id}"
